@@ -250,6 +250,23 @@ func (noRoute) FindUnderlay(context.Context, boson.Address, ...time.Duration) (*
 	return nil, errNoRoute
 }
 
+// ---------------------------------------------------------------- what localstore sees as db.discover
+// the REAL chunkinfo, behind a wrapper that lets the harness act right before a
+// DelFile call of a collection run and right after it (interleaving points inside a run)
+
+type discWrap struct {
+	chunkinfo.Interface
+	sys *Sys
+}
+
+func (w *discWrap) DelFile(root boson.Address, del func() error) error {
+	real := func() error { return w.Interface.DelFile(root, del) }
+	if f := w.sys.OnDelFile; f != nil {
+		return f(root, real)
+	}
+	return real()
+}
+
 // ---------------------------------------------------------------- the system
 
 // Sys is one node-local stack.
@@ -268,7 +285,9 @@ type Sys struct {
 	Peer   boson.Address     // the overlay the network answers as
 	Remote map[string][]byte // chunks the network can deliver (key: raw address)
 	Online bool
-	apiSvc api.Service
+	// OnDelFile, when set, is called for every DelFile of a collection run instead of the real one (which it gets as `real`)
+	OnDelFile func(root boson.Address, real func() error) error
+	apiSvc    api.Service
 }
 
 // New builds the stack on a fresh in-memory store.
@@ -297,7 +316,7 @@ func New(base []byte, capacity uint64) (*Sys, error) {
 	s.Trav = traversal.New(s.NS)
 	s.Pin = pinning.NewService(s.W, st, s.Trav)
 	s.CI = chunkinfo.New(s.Self, nil, log, s.Trav, st, s.NS, noRoute{}, nil, nil, subscribe.NewSubPub())
-	db.SetChunkInfo(s.CI)
+	db.SetChunkInfo(&discWrap{Interface: s.CI, sys: s})
 	s.NS.SetChunkInfo(s.CI)
 	s.apiSvc = api.New(s.NS, nil, s.Self, s.CI, s.Trav, s.Pin, nil, log, nil, nil, nil, nil, nil, nil, api.Options{})
 	s.API = s.apiSvc
